@@ -319,6 +319,11 @@ fn run(data: &[u8], o: &Opts, t: &Tables, r: &mut Res) -> Verdict {
         r.cmf = data[0];
         if data.len() < 2 {
             r.at_bit = 8;
+            if r.cmf & 15 != 8 || (r.cmf >> 4) > 7 {
+                // one byte whose method / window field already rules out every valid continuation: a decoder may
+                // reject it at once or wait for the second header byte - neither is constrained (not alarmed)
+                r.unspecified = true;
+            }
             return Verdict::Short;
         }
         r.flg = data[1];
